@@ -2,6 +2,10 @@
 """Regenerates /verif/MANIFEST.json from the table below (kept in one place so it stays valid)."""
 import json, os
 CHECKS = {
+ "C01": dict(level="exploration", engine="U",
+   text="Every spec of U_2 (~600 schemas of all 15 kinds incl. struct-mapped objects, typed enums, one-ofs with inlined/non-inlined string/int discriminators, (recursive) references) x every raw value of its boundary/representation set that Unserialize accepts is driven through the fixed pipeline Unserialize -> Validate -> Serialize (wire alphabet only) -> Unserialize -> Serialize -> CBOR encode/decode with ATP's decoder options -> Unserialize -> Validate -> Serialize -> Unserialize, demanding equal values and identical wire forms at every stage; 14 typed instantiations compare UnserializeType/ValidateType/SerializeType with the untyped calls.",
+   note="Trusted: the value generators and structural equality in harness/ukit; relational oracle (no expected values).",
+   technique="exhaustive enumeration of a bounded (schema, accepted value) universe with a relational round-trip oracle incl. real CBOR transport", design="DESIGN.md §7 C01"),
  "C02": dict(level="exploration", engine="U",
    text="Exhaustive small-scope comparison with a reference interpreter: ~90 leaf schemas (every (min,max) presence combination incl. min>max, units, patterns, enums with/without display names, typed enum, any) plus lists/maps over one representative per kind x 6 size-bound combinations x 4 key kinds and depth-2 nestings, each against its full boundary value set in every Go representation (int/uint widths, float32/64, decimal and unit strings, boolean words, 2^63 edges, NaN/Inf, wrong types). Unserialize must accept exactly what the reference denotes and return exactly that value; Validate and Serialize must enforce the same constraints on every value of the native type and produce the reference wire form.",
    note="Trusted: the reference interpreter harness/ukit/ref.go (independent for bounds/sizes/membership/unit arithmetic; delegates to strconv and fmt for the lenient conversions); ambiguous inputs are skipped and counted.",
